@@ -296,7 +296,7 @@ def _xtext_form(enc):
     while i < n:
         c = enc[i]
         if c == "+":
-            if i + 2 >= n + 0 and i + 2 > n - 1:
+            if i + 2 >= n:
                 return False
             if not (lbytes._char_in(enc[i + 1], _HEXU) and lbytes._char_in(enc[i + 2], _HEXU)):
                 return False
